@@ -88,9 +88,28 @@ def explorations(tier):
     return ex
 
 
+def store_failures(tier):
+    """E2 part: failures of store reads / writes / side-effect producers (every operation index of every run from every
+    reachable state): no call downstream of the failed node may start afterwards.  Plans built in all three orders."""
+    from .. import e2fam, e2prop
+
+    names = ("plain-dep-chain", "alias-source-consumed", "alias-source-reader-call", "dependent-source", "dependent-source-chained", "literal-dep-with-dependency") if tier == "quick" else ("diamond", "plain-dep-consumers", "alias-source-consumed", "alias-source-reader-call", "dependent-source", "dependent-source-chained",
+             "stored-then-dependent-source", "literal-arg-with-dependency", "barrier-hub-3x2", "stored-literal-with-dependency")
+    specs = [(n, s) for n, s in e2fam.CURATED.items() if n in names]
+    if tier != "quick":
+        specs += [("fam2", s) for s in e2fam.family(2, attach_menu=(None, "a"))]
+    specs = specs + [((n, {"order": o}), s) for n, s in specs for o in ("sources-first", "adds-late")]
+    return e2prop.run(PROP, tier, tags=["C06"], specs=specs, opts={"fail_combos": "few"})
+
+
 def run(tier):
-    return e1prop.run(PROP, explorations(tier))
+    r2 = store_failures(tier)
+    extra = {"e2_" + k: v for k, v in r2["coverage"].items() if k in ("states", "transitions", "real_uberjob_run_calls", "plans", "events_by_kind")}
+    return e1prop.run(PROP, explorations(tier), extra_cov=extra, extra_viol=r2["violations"])
 
 
 def replay(rep):
+    if rep.get("engine") == "E2":
+        from .. import e2prop
+        return e2prop.replay(PROP, rep, tags=["C06"])
     return e1prop.replay(PROP, rep)
